@@ -373,6 +373,9 @@ func (l *commitLog) LatestOffsetBeforeTimestamp(timestamp int64) (int64, error) 
 	var seg *segment
 	if idx == 0 {
 		seg = l.segments[0]
+		if seg.IsEmpty() {
+			return 0, errors.New("log is empty")
+		}
 		// if the given timestamp is before the start of the stream return an
 		// error.
 		if timestamp < seg.FirstWriteTime() {
